@@ -25,6 +25,25 @@ type FetchOutcome struct {
 	Kind string `json:"kind"`
 	// Chunk is the index of the Get call (0-based) that fails for Kind=chunkerr.
 	Chunk int `json:"chunk,omitempty"`
+	// Err selects the flavour of a listerr/chunkerr failure: "" generic error | deadline (wraps
+	// context.DeadlineExceeded) | da-deadline (coreda.ErrContextDeadline) | hang (blocks until the
+	// caller's context ends, then returns its error) | timeout (coreda.ErrTxTimedOut)
+	Err string `json:"err,omitempty"`
+}
+
+func (d *DADbl) fetchErr(ctx context.Context, o FetchOutcome, what string) error {
+	switch o.Err {
+	case "deadline":
+		return fmt.Errorf("dadbl: %s: %w", what, context.DeadlineExceeded)
+	case "da-deadline":
+		return fmt.Errorf("dadbl: %s: %w", what, coreda.ErrContextDeadline)
+	case "timeout":
+		return fmt.Errorf("dadbl: %s: %w", what, coreda.ErrTxTimedOut)
+	case "hang":
+		<-ctx.Done()
+		return ctx.Err()
+	}
+	return errors.New("dadbl: " + what + " failed")
 }
 
 // DACall is one logged call on the DA double.
@@ -386,7 +405,14 @@ func (d *DADbl) GetIDs(ctx context.Context, height uint64, ns []byte) (*coreda.G
 		return nil, errors.New("dadbl: listing failed")
 	case "listerr":
 		call.Outcome = "listerr"
-		return nil, errors.New("dadbl: listing failed")
+		if out.Err == "hang" {
+			// do not hold the lock while parked
+			d.mu.Unlock()
+			err := d.fetchErr(ctx, out, "listing")
+			d.mu.Lock()
+			return nil, err
+		}
+		return nil, d.fetchErr(ctx, out, "listing")
 	}
 	sbs := d.byHeight[height]
 	if len(sbs) == 0 {
@@ -432,9 +458,16 @@ func (d *DADbl) Get(ctx context.Context, ids []coreda.ID, ns []byte) ([]coreda.B
 		}
 		if idx >= target {
 			// fail this chunk (the last chunk if the scripted index is beyond the number of chunks)
+			o := s[0]
 			d.fetch[h] = s[1:]
 			call.Outcome = "chunkerr"
-			return nil, errors.New("dadbl: fetching chunk failed")
+			if o.Err == "hang" {
+				d.mu.Unlock()
+				err := d.fetchErr(ctx, o, "fetching chunk")
+				d.mu.Lock()
+				return nil, err
+			}
+			return nil, d.fetchErr(ctx, o, "fetching chunk")
 		}
 	}
 	out := make([]coreda.Blob, 0, len(ids))
